@@ -458,6 +458,7 @@ func (s *ResettableKeystore) altPutChecked(ctx context.Context, keys []mh.Multih
 	if len(keys) == 0 {
 		return nil
 	}
+	keys = dedupMultihashes(keys)
 	b, err := s.altDs.Batch(ctx)
 	if err != nil {
 		return err
